@@ -85,6 +85,11 @@ def edits(s):
     for i in range(len(s) + 1):
         for c in CHARS:
             out.add(s[:i] + c + s[i:])
+    # common decorations of file names and ids (longer than one edit)
+    for suf in (".tif", ".TIF", ".tiff", ".txt", ".gz", ".zip", ".index", ".xml", "-B", "-F", "_1", "__D", ".1", "-HH"):
+        out.add(s + suf)
+    for pre in ("./", "IMG-", "L-", "x_", "/"):
+        out.add(pre + s)
     out.discard(s)
     return sorted(out)
 
@@ -200,6 +205,7 @@ BASES = [
     ("scan info", "F3"),
     ("file name", fname("IMG", "HH", "WBDR1.1__D", "F1")),
     ("file name", fname("LED", None, "HBQR3.1GLA", None)),
+    ("file name", fname("IMG", "HV", "UBSR1.5GUA", None)),
 ]
 
 
@@ -231,7 +237,7 @@ def run(res, tier, seed):
         "all 3600 product ids through open_alos2 (summary attributes, image group names; image shapes rotate over pol x scan) and"
         " through decode_filename with every type x polarisation x scan shape [thorough: all 3600 ids = 1.5M names; quick: 48 ids];"
         " every date 2014-01-01..2049-12-31 in a scene id; all edit-distance-1 strings (substitution/insertion by 41 characters incl. line feed,"
-        " deletion) of 6 base identifiers, classified by a table-driven recogniser. Non-trivial near-miss batches contain at least"
+        " deletion) and common multi-character decorations (.tif, .gz, .index, path prefixes ...) of 7 base identifiers, classified by a table-driven recogniser. Non-trivial near-miss batches contain at least"
         " one out-of-language string."
     )
     res.assumptions = ["two-digit years follow the 1969..2068 pivot (valid until 2064 for acquisition dates)", "file types other than IMG/LED/VOL/TRL with three capital letters are left undecided (the tables do not list file types)"]
